@@ -88,7 +88,17 @@ fn do_query(db: &Db, q: &str, describe: bool) -> Value {
                         let spec = DisplaySpec::default();
                         format!("{} {}", n.value.display(&spec), n.unit.display(true))
                     }));
+                    // C19 oracle ingredients: the library's own renderings (the binary must print these, chosen by rules the stand-in applies itself)
+                    let cli = catch_unwind(AssertUnwindSafe(|| {
+                        let mut spec = DisplaySpec::default();
+                        spec.limit = 12;
+                        spec.exponent_limit = 12;
+                        spec.show_continuation = true;
+                        (n.value.display(&spec).to_string(), n.unit.display(true).to_string(), n.unit.display(false).to_string())
+                    }));
+                    let (dec12, unit_plural, unit_singular) = match cli { Ok(t) => (json!(t.0), json!(t.1), json!(t.2)), Err(_) => (json!(null), json!(null), json!(null)) };
                     results.push(json!({"ok": {"value": rat_json(&n.value), "unit": unit_json(&n.unit), "unit_str": n.unit.to_string(),
+                        "dec12": dec12, "unit_plural": unit_plural, "unit_singular": unit_singular,
                         "has_numerator": n.unit.has_numerator(),
                         "display": match shown { Ok(s) => json!(s), Err(e) => json!({"panic": panic_msg(e)}) }}}));
                 }
